@@ -117,7 +117,7 @@ class Address:
         else:  # len(device_id) == 10, e.g. 'CTL:123456', or ' 63:262142'
             dev_type = DEVICE_LOOKUP.get(device_id[:3], device_id[1:3])
 
-        return f"{(int(dev_type) << 18) + int(device_id[-6:]):0>6X}"  # no preceding 0x
+        return _dev_type_num_to_hex_id(device_id, int(dev_type), int(device_id[-6:]))
 
     # @classmethod
     # def from_hex(cls, hex_id: DeviceIdT):
@@ -137,6 +137,14 @@ NON_DEV_ADDR = Address(NON_DEVICE_ID)  # --:------
 ALL_DEV_ADDR = Address(ALL_DEVICE_ID)  # 63:262142
 
 
+def _dev_type_num_to_hex_id(device_id: str, dev_type: int, dev_num: int) -> str:
+    """Pack a device type (6 bits) and number (18 bits) into a 6-char hex string."""
+
+    if not (0 <= dev_type <= 0x3F and 0 <= dev_num <= 0x03FFFF):  # else would alias
+        raise ValueError(f"Invalid value: {device_id}, is not within 00:000000-63:262143")
+    return f"{(dev_type << 18) + dev_num:0>6X}"  # no preceding 0x
+
+
 def dev_id_to_hex_id(device_id: DeviceIdT) -> str:
     """Convert (say) '01:145038' (or 'CTL:145038') to '06368E'."""
 
@@ -149,7 +157,7 @@ def dev_id_to_hex_id(device_id: DeviceIdT) -> str:
     else:  # len(device_id) == 10, e.g. 'CTL:123456', or ' 63:262142'
         raise ValueError(f"Invalid value: {device_id}, is not 9-10 characters long")
 
-    return f"{(int(dev_type) << 18) + int(device_id[-6:]):0>6X}"
+    return _dev_type_num_to_hex_id(device_id, int(dev_type), int(device_id[-6:]))
 
 
 def hex_id_to_dev_id(device_hex: str, friendly_id: bool = False) -> DeviceIdT:
